@@ -7,7 +7,7 @@
    partitioned graph (property C18); the equality of the partitioned run with the denotation of the
    flat graph is NOT proved here -- the correspondence check compares the implementation with both. *)
 From Coq Require Import List NArith Bool.
-From HV Require Import Dfir.Model Dfir.ModelTick Dfir.PTick Dfir.PFrame.
+From HV Require Import Dfir.Model Dfir.ModelTick Dfir.ModelFlat Dfir.PTick Dfir.PFrame Dfir.PFlat Dfir.PFlatCheck.
 Import ListNotations.
 
 Theorem C23_handoff_complete :
@@ -31,6 +31,30 @@ Theorem C23_same_tick_delivery : forall ext A P M C h k w,
 Proof. exact same_tick_delivery. Qed.
 Print Assumptions C23_same_tick_delivery.
 
+(* the whole program: for a tick program without loop blocks whose handoffs are all same-tick Vec
+   handoffs, whose blocks are well formed (PFlat.wf_chain: a block reads only handoffs it receives and
+   wires it produced, receives only handoffs sent by earlier blocks, one producer and one consumer
+   per wire), running the blocks one after the other is, over every history of inputs and for all
+   operators and closures, the denotation of the flat graph -- every operator applied once per tick,
+   in the same order, to the complete lists produced for it in that tick: same sink outputs, same
+   operator states, same tick counts.  Any DAG of blocks (chains, trees, diamonds). *)
+Theorem C23_partitioned_eq_flat : forall sgs ops h,
+  wf_chain [] [] [] sgs ->
+  let '(wp, obsp) := drive false (part_prog sgs ops) h in
+  let '(wf, obsf) := drive false (flat_prog sgs ops) h in
+  w_out wp = w_out wf /\ w_st wp = w_st wf /\ w_panic wp = w_panic wf /\ obsp = obsf.
+Proof. exact partitioned_eq_flat. Qed.
+Print Assumptions C23_partitioned_eq_flat.
+
+(* the same for every program that passes the executable check evaluated on the real partitions *)
+Theorem C23_transparency : forall p h,
+  flat_applicable p = true ->
+  let '(wp, obsp) := drive false p h in
+  let '(wf, obsf) := drive false (flat_of p) h in
+  w_out wp = w_out wf /\ w_st wp = w_st wf /\ w_panic wp = w_panic wf /\ obsp = obsf.
+Proof. exact transparency. Qed.
+Print Assumptions C23_transparency.
+
 (* non-vacuity: producer subgraph then anti_join consumer across handoff 0 *)
 Example C23_example :
   let a := {| sg_recv := []; sg_send := [(0%N, SFresh)];
@@ -43,4 +67,13 @@ Example C23_example :
               p_ops := [(0%N, NSource 0); (1%N, NSource 1); (2%N, NOp (op_anti_join Tick Tick)); (3%N, NSink 0)] |} in
   get 0%N (w_out (fst (drive false p [[(0%N, [VN 1; VN 2]); (1%N, [VP (VN 1) (VN 5); VP (VN 3) (VN 6)])]]))) =
   [VP (VN 0) (VP (VN 3) (VN 6))].
+Proof. vm_compute. reflexivity. Qed.
+
+Example C23_example_applicable :
+  flat_applicable
+    {| p_body := [IRun {| sg_recv := []; sg_send := [(0%N, SFresh)]; sg_slots := [];
+                          sg_nodes := [ {| n_id := 0%N; n_kind := NSource 0; n_ins := []; n_outs := [0%N] |} ] |};
+                  IRun {| sg_recv := [(0%N, false)]; sg_send := []; sg_slots := [];
+                          sg_nodes := [ {| n_id := 1%N; n_kind := NSink 0; n_ins := [0%N]; n_outs := [] |} ] |}];
+       p_sched := []; p_swaps := []; p_ops := [] |} = true.
 Proof. vm_compute. reflexivity. Qed.
